@@ -407,8 +407,9 @@ where
             0..=54 if len > 0 => {
                 let i = if c.rng().random_bool(0.3) { len - 1 - c.rng().random_range(0..len.min(4)) } else { c.rng().random_range(0..len) };
                 let v = gen_val(c.rng(), width);
-                trace.push(format!("set_atomic({},{:#x})", i, v));
-                if c.guard("set_atomic", || a.set_atomic(i, W::from128(v), o)).is_none() {
+                let helper = c.rng().random_bool(0.3);
+                trace.push(format!("{}({},{:#x})", if helper { "AtomicHelper::set" } else { "set_atomic" }, i, v));
+                if c.guard("set_atomic", || if helper { sux::traits::bit_field_slice::AtomicHelper::set(&a, i, W::from128(v), o) } else { a.set_atomic(i, W::from128(v), o) }).is_none() {
                     // contents must then be unchanged; stop after the first failure
                     let got: Vec<u128> = (0..len).map(|j| a.get_atomic(j, o).to128()).collect();
                     c.check("set_atomic", got == m, || format!("set_atomic panicked and changed the contents; {}", tr(&trace)));
@@ -438,14 +439,16 @@ where
                 let idxs = [len, len + 1, 2 * len + 3, usize::MAX];
                 let i = idxs[c.rng().random_range(0..4)];
                 let v = W::from128(gen_val(c.rng(), width));
-                let r1 = catch(|| a.get_atomic(i, o));
-                let r2 = catch(|| a.set_atomic(i, v, o));
-                c.check("atomic_oob", r1.is_err() && r2.is_err(), || format!("get_atomic/set_atomic({}) on len {} did not both panic; {}", i, len, tr(&trace)));
+                // through the trait methods and through the short names of AtomicHelper
+                let helper = c.rng().random_bool(0.5);
+                let r1 = catch(|| if helper { sux::traits::bit_field_slice::AtomicHelper::get(&a, i, o) } else { a.get_atomic(i, o) });
+                let r2 = catch(|| if helper { sux::traits::bit_field_slice::AtomicHelper::set(&a, i, v, o) } else { a.set_atomic(i, v, o) });
+                c.check("atomic_oob", r1.is_err() && r2.is_err(), || format!("{}({}) on len {} did not both panic; {}", if helper { "AtomicHelper::get/set" } else { "get_atomic/set_atomic" }, i, len, tr(&trace)));
                 if width < bits && len > 0 {
                     let j = c.rng().random_range(0..len);
                     let big = W::from128([1u128 << width, mask128(bits), m[j] | (1u128 << width)][c.rng().random_range(0..3)]);
-                    let r = catch(|| a.set_atomic(j, big, o));
-                    c.check("set_atomic_toolarge", r.is_err(), || format!("set_atomic({},{:#x}) with width {} did not panic; {}", j, big.to128(), width, tr(&trace)));
+                    let r = catch(|| if helper { sux::traits::bit_field_slice::AtomicHelper::set(&a, j, big, o) } else { a.set_atomic(j, big, o) });
+                    c.check("set_atomic_toolarge", r.is_err(), || format!("{}({},{:#x}) with width {} did not panic; {}", if helper { "AtomicHelper::set" } else { "set_atomic" }, j, big.to128(), width, tr(&trace)));
                 }
                 let got: Vec<u128> = (0..len).map(|j| a.get_atomic(j, o).to128()).collect();
                 c.check("rejected_unchanged", got == m, || format!("contents changed by rejected atomic operations (first difference {:?}); {}", first_diff(&got, &m), tr(&trace)));
